@@ -102,7 +102,7 @@ func (x *Engine) dispatch(fr *Frame, st *State, cc *ssa.CallCommon, args []Val, 
 		return r
 	}
 	key := specKeyOf(callee)
-	if fs := x.db.Funcs[key]; fs != nil && !(fr.top && callee == fr.fn) && !x.forceInline[key] {
+	if fs := x.db.Funcs[key]; fs != nil && !(fr.top && callee == fr.fn) && !x.forceInline[key] && !(x.conc && hasProp(fs.ConcProps, x.curProp) && callee.Blocks != nil) {
 		return x.applyContract(fr, st, fs, sig, args, p, key)
 	}
 	if callee.Blocks == nil {
@@ -404,6 +404,12 @@ func (x *Engine) applyContract(fr *Frame, st *State, fs *FuncSpec, sig *types.Si
 		st.live = x.name("live", "Bool", andTerms(st.live, notTerm(pc.T)))
 	}
 	for _, c := range fs.Ensures {
+		if x.conc && !hasProp(c.Props, x.curProp) && !fs.IsIface && !fs.Assumed {
+			continue // a sequential postcondition is not valid under interference
+		}
+		if !x.conc && len(c.Props) > 0 && !hasProp(c.Props, x.curProp) {
+			continue
+		}
 		ev := &Eval{x: x, st: st, old: pre, env: env, pkg: pkg}
 		x.assume(st, x.safeEvalBool(ev, c))
 	}
